@@ -122,6 +122,13 @@ func errChainReaches(v ssa.Value, isSrc func(ssa.Value) bool, seen map[ssa.Value
 		}
 		return any, "phi with no source edge"
 	case *ssa.Extract:
+		if call, isCall := x.Tuple.(*ssa.Call); isCall && !isSrc(call) {
+			if f := calleeOf(call); f != nil && !chainWrappers[f.FullName()] && f.FullName() != "fmt.Errorf" {
+				if ok, why, followed := errChainThroughCalleeA3(call, x.Index, isSrc, seen); followed {
+					return ok, why
+				}
+			}
+		}
 		return errChainReaches(x.Tuple, isSrc, seen)
 	case *ssa.Call:
 		f := calleeOf(x)
@@ -163,6 +170,10 @@ func errChainReaches(v ssa.Value, isSrc func(ssa.Value) bool, seen map[ssa.Value
 				}
 			}
 			return false, "fmt.Errorf %w does not wrap the source error"
+		}
+		// a helper of the collector with a body: followed (see errChainThroughCalleeA3)
+		if ok, why, followed := errChainThroughCalleeA3(x, -1, isSrc, seen); followed {
+			return ok, why
 		}
 		return false, "result of " + full + " does not preserve the error chain"
 	case *ssa.UnOp:
